@@ -24,6 +24,7 @@ SLICES = {
     'hook': ('HookCfgsS', 'HookOutsEq', 'BothHooks', 'SomeWrites'),
     'empty': ('EmptyCfgsS', 'EmptyOuts', 'BothHooks', 'NoWrites'),
     'long': ('LongCfgsS', 'LongOuts', 'BothHooks', 'NoWrites'),
+    'deep': ('DeepCfgs', 'DeepOuts', 'OkHooks', 'NoWrites'),
 }
 
 
@@ -107,6 +108,11 @@ VARIANTS = [
 ]
 # values at the top of the float64 range: finite, but the sum of two of them is not (only for slices over {0, 1})
 HUGE = {'entry': 'solve_t', 'scale': 2.0 ** 1023, 'span': 'range', 'tolmode': 'eq', 'flavour': 0}
+# values of both signs at the top of the float64 range: the difference of two finite check values overflows
+SIGNED = {'entry': 'solve_t', 'scale': 2.0 ** 1023, 'span': 'range', 'tolmode': 'eq', 'flavour': 0, 'shift': 1}
+# an object with a history: solved before, every variable re-bound by a sequence assignment
+HISTORY = {'entry': 'solve_t', 'scale': 1.0, 'span': 'str', 'tolmode': 'eq', 'flavour': 0, 'history': True}
+HISTORY2 = {'entry': 'solve', 'scale': 0.25, 'span': 'range', 'tolmode': 'ulp', 'flavour': 1, 'history': True}
 # values and tolerance so small that their squares underflow to zero
 TINY = {'entry': 'solve_t', 'scale': 2.0 ** -600, 'span': 'str', 'tolmode': 'eq', 'flavour': 1}
 
